@@ -23,6 +23,17 @@ Theorem C20_module_is_used_and_copied : forall k m H no,
 Proof. exact of_module_lemma. Qed.
 Print Assumptions C20_module_is_used_and_copied.
 
+(* the size arguments given next to module= are ignored: the state reports the MODULE's sizes (the statement's
+   "uses that RBM (its parameters and sizes)").  definitional in the arguments: [of_module_args] drops them, as the
+   code does; that the code does is checked by c20.py with num_visible / num_hidden / num_aux arguments that
+   disagree with the module. *)
+Theorem C20_module_sizes_win_over_arguments : forall k nv nh na m H no,
+  wfb H -> assoc m (b_nets H) = Some no -> (k = Mixed -> no_kind no = Purif) ->
+  let r := of_module_args k nv nh na m H in
+  exists st, snd r = Some st /\ bs_am st = m /\ state_sizes (fst r) st = net_sizes H m.
+Proof. exact of_module_sizes_lemma. Qed.
+Print Assumptions C20_module_sizes_win_over_arguments.
+
 (* networks_independent: ANY sequence of in-place writes to the parameters of one network leaves the
    parameters of a network that shares no cell with it unchanged ... *)
 Theorem C20_networks_independent : forall ws a b H,
@@ -56,6 +67,9 @@ Proof.
 Qed.
 Print Assumptions C20_initial_values_shapes_biases_weights.
 
+(* definitional: restates the model (a table of the shapes).  The `if num_hidden` behaviour of BinaryRBM (an explicit
+   0 falls back to num_visible) is modelled because the code has it; the property does not demand it and the check
+   does not generate num_hidden = 0 for BinaryRBM-based states. *)
 Theorem C20_constructor_shapes : forall nv nh na,
   ctor_shapes Positive nv nh na = [(P_WEIGHTS, [dflt_binary nv nh; nv]); (P_VB, [nv]); (P_HB, [dflt_binary nv nh])] /\
   ctor_shapes Complex nv nh na = ctor_shapes Positive nv nh na /\
@@ -87,15 +101,23 @@ Theorem C20_reinitialize_keeps_shapes : forall shapes d1 d2,
 Proof. exact reinitialize_keeps_shapes_lemma. Qed.
 Print Assumptions C20_reinitialize_keeps_shapes.
 
-(* C20.4  fit without bases is refused (ValueError) before any effect, for complex and mixed states, whatever
-   the base-class fit would do and whatever the stop flag. *)
+(* C20.4  fit without bases is refused before any effect, for complex and mixed states, whatever the base-class fit
+   would do and whatever the stop flag.
+   definitional: restates the model — [Build.fit] takes the base class' effects as an argument and returns [] on
+   the guard; the evidence for this clause is the oracle of c20.py (no callback event, no optimizer constructed,
+   parameters and torch RNG state unchanged, an exception raised). *)
 Theorem C20_fit_without_bases_refused_before_any_effect : forall k stop body,
   k <> Positive -> fit k false stop body = ([], Err EValue).
 Proof. exact fit_without_bases_lemma. Qed.
 Print Assumptions C20_fit_without_bases_refused_before_any_effect.
 
 (* C20.5  the aux-bias block of the phase network's batch gradient is identically zero (all groupings, rotation
-   coefficients, weights, batch sizes) ... *)
+   coefficients, weights, batch sizes) ...
+   The zero aux rows of gamma_grad and pi_grad(phase=True) are POSTULATED by the model (definitions mirrored from the
+   code: [gamma_grad_ab], [pi_grad_phase_ab] are [repeat 0]); what is proved is that every later stage (times i,
+   rotation, real part, weighting, accumulation over basis groups, division by the batch size, no negative phase)
+   keeps them zero.  The link of the two postulated blocks to the code is the oracle of c20.py, which evaluates
+   gamma_grad / pi_grad in the expand=True, expand=False and 1-D forms. *)
 Theorem C20_phase_aux_bias_gradient_is_zero : forall na groups bs,
   batch_grad_ab ROps na groups bs = repeat 0%R na.
 Proof. exact batch_grad_ab_zero. Qed.
@@ -111,8 +133,11 @@ Theorem C20_phase_aux_bias_stays_zero : forall (S : Type) (opt : optimizer (T:=R
 Proof. exact @phase_aux_bias_stays_zero_lemma. Qed.
 Print Assumptions C20_phase_aux_bias_stays_zero.
 
-(* ... which SGD (any lr / momentum / dampening / weight decay / Nesterov) and Adam satisfy, from their initial
-   states (non-vacuity of the hypothesis). *)
+(* ... which SGD (any lr / momentum / dampening / weight decay / Nesterov) satisfies — no division occurs — and
+   Adam satisfies, from their initial states (non-vacuity of the hypothesis).
+   CAUTION for Adam: this statement quantifies over every configuration, including eps = 0 or beta = 1, where it
+   holds in R only through the totalised division 0 * / 0 = 0 (torch would produce NaN).  The guarded statement
+   follows below: with eps > 0 and 0 <= beta1, beta2 < 1 no denominator of the update vanishes. *)
 Theorem C20_sgd_and_adam_keep_zero : forall na,
   (forall c, keeps_zero na (sgd ROps c) (sgd_Q na)) /\ sgd_Q na (None, None) /\
   (forall c, keeps_zero na (adam ROps c) (adam_Q na)) /\
@@ -122,6 +147,16 @@ Proof.
                    (conj (fun c => adam_keeps_zero c na) (adam_initial_state na)))).
 Qed.
 Print Assumptions C20_sgd_and_adam_keep_zero.
+
+Theorem C20_adam_keeps_zero_guarded : forall na c,
+  (0 < ad_eps c)%R -> (0 <= ad_b1 c < 1)%R -> (0 <= ad_b2 c < 1)%R ->
+  keeps_zero na (adam ROps c) (adam_Q na) /\
+  forall t v, (1 - npow ROps (ad_b1 c) (S t) <> 0)%R /\ (1 - npow ROps (ad_b2 c) (S t) <> 0)%R /\
+              (sqrt (v / (1 - npow ROps (ad_b2 c) (S t))) + ad_eps c <> 0)%R.
+Proof.
+  intros na c He H1 H2. exact (conj (adam_keeps_zero c na) (fun t v => adam_denominators_nonzero c t v He H1 H2)).
+Qed.
+Print Assumptions C20_adam_keeps_zero_guarded.
 
 (* non-vacuity of the module= hypotheses *)
 Theorem C20_hypotheses_satisfiable :
